@@ -34,6 +34,7 @@ inductive Kind
   | noOov        -- NoOOVPluginProvided
   | catType      -- InvalidCharacterCategoryType
   | charCat      -- InvalidCharacterCategory
+  | plugin       -- PluginError (a plugin's own regex does not compile)
 deriving DecidableEq, Repr
 
 def Kind.name : Kind → String
@@ -44,6 +45,7 @@ def Kind.name : Kind → String
   | .noOov => "NoOOVPluginProvided"
   | .catType => "InvalidCharacterCategoryType"
   | .charCat => "InvalidCharacterCategory"
+  | .plugin => "PluginError"
 
 /-- result of a piece of Rust code: value, `Err(kind)`, crash, or undefined behaviour (unchecked
 out-of-bounds read in a release build) -/
